@@ -354,3 +354,123 @@ Definition clear_flush (o : fop) : fop := match o with FCommit h _ => FCommit h 
 Definition impl_init (m : kvs) : impl_state :=
   ({| d_store := m; d_ck := []; d_cr := []; d_max := 0; d_always := false |}, []).
 Definition spec_init (m : kvs) : spec_state := (m, []).
+
+(* ------------------------------------------------------------- the merged cursor
+   (db.go cursor.First/Last/Next/Prev, chooseIterator, skipPendingUpdates):
+   one iterator over the snapshot [db], one over the pending keys [pend];
+   snapshot keys that are pending or removed are skipped.  Sub-iterators are
+   positions in sorted key lists (exhausted = None, and an exhausted
+   sub-iterator is only ever re-positioned by First/Last). *)
+
+Inductive cstep := CFirst | CLast | CNext | CPrev.
+
+Definition knext (l : list key) (p : option key) : option key :=
+  match p with Some k => find (fun y => kltb k y) l | None => None end.
+Definition kprev (l : list key) (p : option key) : option key :=
+  match p with Some k => find (fun y => kltb y k) (rev l) | None => None end.
+
+Record mcur := { mc_db : option key; mc_pend : option key; mc_cur : option bool (* Some true = db *) }.
+
+Section Cursor.
+  Variables (db pend : list key) (skip : key -> bool).
+
+  Fixpoint skip_loop (fuel : nat) (fwd : bool) (p : option key) : option key :=
+    match fuel, p with
+    | S f, Some k => if skip k then skip_loop f fwd (if fwd then knext db p else kprev db p) else p
+    | _, _ => p
+    end.
+
+  Definition choose (fwd : bool) (d p : option key) : mcur :=
+    let d := skip_loop (S (length db)) fwd d in
+    match d, p with
+    | None, None => {| mc_db := d; mc_pend := p; mc_cur := None |}
+    | Some _, None => {| mc_db := d; mc_pend := p; mc_cur := Some true |}
+    | None, Some _ => {| mc_db := d; mc_pend := p; mc_cur := Some false |}
+    | Some a, Some b =>
+      let c := kcmp a b in
+      let pick_pend := match c with Gt => fwd | Lt => negb fwd | Eq => false end in
+      {| mc_db := d; mc_pend := p; mc_cur := Some (negb pick_pend) |}
+    end.
+
+  Definition cur_step (c : mcur) (s : cstep) : mcur :=
+    match s with
+    | CFirst => choose true (hd_error db) (hd_error pend)
+    | CLast => choose false (hd_error (rev db)) (hd_error (rev pend))
+    | CNext =>
+      match mc_cur c with
+      | None => c
+      | Some true => choose true (knext db (mc_db c)) (mc_pend c)
+      | Some false => choose true (mc_db c) (knext pend (mc_pend c))
+      end
+    | CPrev =>
+      match mc_cur c with
+      | None => c
+      | Some true => choose false (kprev db (mc_db c)) (mc_pend c)
+      | Some false => choose false (mc_db c) (kprev pend (mc_pend c))
+      end
+    end.
+
+  Definition cur_key (c : mcur) : option key :=
+    match mc_cur c with Some true => mc_db c | Some false => mc_pend c | None => None end.
+
+  Definition cur_init : mcur := {| mc_db := None; mc_pend := None; mc_cur := None |}.
+
+  (* keys the cursor reports along a step sequence *)
+  Fixpoint cur_run (c : mcur) (ss : list cstep) : list (option key) :=
+    match ss with [] => [] | s :: r => let c' := cur_step c s in cur_key c' :: cur_run c' r end.
+End Cursor.
+
+(* what an ordered map predicts: a position in the sorted merged key list *)
+Fixpoint spec_run (m : list key) (p : option key) (ss : list cstep) : list (option key) :=
+  match ss with
+  | [] => []
+  | s :: r =>
+    let p' := match s with
+              | CFirst => hd_error m
+              | CLast => hd_error (rev m)
+              | CNext => knext m p
+              | CPrev => kprev m p
+              end in
+    p' :: spec_run m p' r
+  end.
+
+(* a step sequence that never reverses: First Next* or Last Prev* *)
+Definition monotone (ss : list cstep) : bool :=
+  match ss with
+  | CFirst :: r => forallb (fun s => match s with CNext => true | _ => false end) r
+  | CLast :: r => forallb (fun s => match s with CPrev => true | _ => false end) r
+  | _ => false
+  end.
+
+(* configurations over a small key universe: which keys are in the snapshot,
+   pending, removed (a removed key is never pending: deleteKey/putKey keep the
+   two treaps disjoint) *)
+Definition sub_keys (u : list key) (mask : Z) : list key :=
+  map snd (filter (fun ik => Z.testbit mask (fst ik)) (combine (map Z.of_nat (seq 0 (length u))) u)).
+
+Definition okey_eqb (a b : option key) : bool :=
+  match a, b with Some x, Some y => keqb x y | None, None => true | _, _ => false end.
+Fixpoint olist_eqb (a b : list (option key)) : bool :=
+  match a, b with
+  | [], [] => true
+  | x :: a', y :: b' => okey_eqb x y && olist_eqb a' b'
+  | _, _ => false
+  end.
+
+Definition cursor_agrees (u : list key) (md mp mr : Z) (ss : list cstep) : bool :=
+  let dbk := sub_keys u md in
+  let pk := sub_keys u mp in
+  let rk := sub_keys u (Z.land mr (Z.lnot mp)) in
+  let mem (l : list key) (k : key) := existsb (keqb k) l in
+  let skip k := mem rk k || mem pk k in
+  let merged := filter (fun k => mem pk k || (mem dbk k && negb (mem rk k))) u in
+  olist_eqb (cur_run dbk pk skip cur_init ss) (spec_run merged None ss).
+
+(* all configurations over the universe [u], both maximal monotone walks *)
+Definition zrange (n : Z) : list Z := map Z.of_nat (seq 0 (Z.to_nat n)).
+Definition sweep_monotone (u : list key) : bool :=
+  let n := 2 ^ Z.of_nat (length u) in
+  let fwd := CFirst :: repeat CNext (S (length u)) in
+  let bwd := CLast :: repeat CPrev (S (length u)) in
+  forallb (fun md => forallb (fun mp => forallb (fun mr =>
+    cursor_agrees u md mp mr fwd && cursor_agrees u md mp mr bwd) (zrange n)) (zrange n)) (zrange n).
